@@ -32,6 +32,9 @@ type Conn struct {
 	ReadPos int
 	WriteDelays []time.Duration // virtual time the k-th Write takes before it returns (a slow transport / peer)
 	nwrites  int
+	// ErrWithData: the Read that hands out the last queued bytes also returns the pending EOF /
+	// read error (n > 0 together with err != nil, as io.Reader permits and crypto/tls does)
+	ErrWithData bool
 	ClosedAt time.Duration // virtual time of the first Close
 	CloseBy  string
 }
@@ -86,6 +89,14 @@ func (c *Conn) Read(p []byte) (int, error) {
 			h = h*1099511628211 ^ uint64(x)
 		}
 		vs.Fold(h)
+		if c.ErrWithData && len(c.in) == 0 {
+			if c.rerr != nil {
+				return n, c.rerr
+			}
+			if c.eof {
+				return n, io.EOF
+			}
+		}
 		return n, nil
 	}
 	if c.rerr != nil {
